@@ -139,6 +139,9 @@ func faultErr(f hx.Fault) error {
 	case "ext":
 		return &ggql.Error{Base: errInjected, Extensions: map[string]interface{}{"code": "E42", "a \"quoted\" key": []interface{}{int64(1), "x"}}}
 	}
+	if f.Msg != "" {
+		return errors.New(f.Msg)
+	}
 	return errInjected
 }
 
